@@ -354,5 +354,28 @@ PROPS["C19"] = {
                     "segments even when percent-encoded (not generated; DESIGN.md)"],
 }
 
+
+PROPS["C17"] = {
+    "check_mods": ["C17"],
+    "model_out": "model_agrees",
+    "drivers": [{"name": "c17", "n_quick": 1500, "n_thorough": 60000, "timeout": 3000}],
+    "rule": "L1: the real Heartbeat::fire asked about (interval, elapsed) pairs through the verif_backdate hook: 13 "
+            "intervals x 12 offsets around interval - 5 ms (never closer than 3 ms to the boundary: the clock "
+            "moves while the call runs) and random pairs; the real start_heartbeats for 7 values of h incl. 0 "
+            "and 65535. L2, real time with h = 1 s (the smallest AMQP can express), five scenarios at once over "
+            "the mock transport: idle client kept alive by the broker (gaps between its writes); silent broker "
+            "(time and kind of the failure); broker sending a heartbeat every 0.9 s for 4.6 s; broker trickling "
+            "single bytes of a frame that never completes every 0.7 s for 4.3 s (any inbound traffic counts); "
+            "h = 0 for 2.6 s. A timing miss is retried twice before it counts. Every case is non-trivial; "
+            "distinct = distinct case term.",
+    "explanation": "C17_not_early / C17_prompt / C17_armed_* / C17_live_server / C17_idle_send / C17_zero / "
+                   "C17_intervals over the abstract clock, for every trace. L1 must equal the model; the "
+                   "real-time scenarios are judged against the model's numbers with 700 ms slack: gaps in "
+                   "[h - slack, h + slack], failure in [2h - 50 ms, 2h + 2 slack] with kind "
+                   "MissedServerHeartbeats, no failure for a live or trickling server, nothing at all for h = 0.",
+    "trusted_base": L2_TRUSTED + ["real clocks, the mio-extras timer wheel and thread wake-up latency: sampled with slack, not modelled"],
+    "assumptions": ["'at least once per h seconds' holds up to the timer latency delta (C17_prompt's delta)"],
+}
+
 # properties not claimed, with the reason (kept current)
 NOT_APPLICABLE = {}
